@@ -325,3 +325,54 @@ func vpH_C08_T_slow_callback() {
 	vpCover("C08.slow-callback")
 	s.audit("after-stop")
 }
+
+// vpH_C08_T_restart_leftover: the application restarts the election (Stop, then Start on the same object) at
+// an explorer-chosen point while a Create of the previous run's acquisition round is still on its way to the
+// store (every Create takes 300 ms): the leftover Create and the new run's first Create race, and whichever
+// outcome the instance settles in, promotions and demotions alternate and balance.
+func vpH_C08_T_restart_leftover() {
+	H := time.Second
+	vpSetOpt("rand-fixed", 1)
+	s := &vpTermScn{H: H}
+	s.st = vpNewStore("g", 0)
+	s.st.dialect = vpDialectNATS
+	s.st.write("env:old", "create", vpRecMk("old", "tok-old", 0), false, 0)
+	s.kv = vpHandle(s.st, "a")
+	s.kv.latOps = "create"
+	s.kv.lat = 300 * time.Millisecond
+	s.kv.latMin = s.kv.lat
+	cfg := vpBaseConfig("a", H, 3*H)
+	cfg.ValidationInterval = time.Hour
+	s.m = &vpMetrics{}
+	s.m.onFlag = func(v float64) {
+		if s.wasL && v == 0 {
+			s.edges++
+			vpEvent("flag-down", vpSite())
+		}
+		if !s.wasL && v == 1 {
+			s.ups++
+		}
+		s.wasL = v == 1
+	}
+	cfg.Metrics = s.m
+	s.e = vpMustNew(&vpProvider{s.kv}, cfg)
+	s.cb = &vpCallbacks{}
+	s.cb.install(s.e)
+	_ = s.e.Start(vpRootCtx())
+	time.Sleep(3 * time.Second) // the first acquisition round is over: follower with a watcher
+	vpQuiesce()
+	s.st.write("env:old", "delete", nil, true, 0)
+	go func() {
+		vpYieldLazy("api.restart", 600*time.Millisecond)
+		_ = s.e.Stop()
+		_ = s.e.Start(vpRootCtx())
+		vpEvent("restarted")
+	}()
+	time.Sleep(4 * time.Second)
+	vpQuiesce()
+	vpCover("C08.restart-leftover")
+	s.audit("after-restart")
+	_ = s.e.Stop()
+	vpQuiesce()
+	s.audit("stopped")
+}
